@@ -51,6 +51,13 @@ Proof.
 Qed.
 Print Assumptions C05_items_trimmed.
 
+(* ... and that piece is unique: the blank runes form a prefix-free code whose non-initial bytes start no rune, so any
+   decomposition raw = blanks ++ m ++ blanks with m free of blanks at both ends has m = the item *)
+Theorem C05_item_is_the_trimmed_piece : forall raw l m r, raw = l ++ m ++ r -> blanks l -> blanks r ->
+  ~ starts_blank m -> ~ ends_blank m -> m = trim_space raw.
+Proof. exact trim_space_unique. Qed.
+Print Assumptions C05_item_is_the_trimmed_piece.
+
 Theorem C05_item_without_blanks_kept : forall s, ~ starts_blank s -> ~ ends_blank s -> trim_space s = s.
 Proof. exact trim_space_fix. Qed.
 
